@@ -417,7 +417,17 @@ func (c *fnctx) stmts(list []ast.Stmt, rest string) string {
 	}
 	s := list[0]
 	tail := func() string { return c.stmts(list[1:], rest) }
-	if pre, ok := c.tg.SHints[c.t.src(s)]; ok {
+	stext := c.t.src(s)
+	pre, ok := c.tg.SHints[stext]
+	if !ok {
+		// a hint key ending in "..." matches any statement that starts with the text before it
+		for k, v := range c.tg.SHints {
+			if strings.HasSuffix(k, "...") && strings.HasPrefix(stext, strings.TrimSuffix(k, "...")) {
+				pre, ok = v, true
+			}
+		}
+	}
+	if ok {
 		if pre == "" {
 			return tail()
 		}
